@@ -27,6 +27,9 @@
 #include "bee2/crypto/stb99.h"
 
 /* ------------------------------------------------------------------ helpers */
+/* validator that sees DECRYPTED protocol data (BSTS Step4/Step5, BAUTH TStep5): defined near the BSTS scenarios */
+static int CV_REJECT;
+static err_t certval_x(octet* pubkey, const bign_params* params, const octet* data, size_t len);
 /* generators that can never produce an acceptable value */
 static void rng_zero(void* buf, size_t count, void* state) { memset(buf, 0, count); }
 static void rng_ff(void* buf, size_t count, void* state) { memset(buf, 0xFF, count); }
@@ -875,12 +878,13 @@ static err_t s_baCT4(int var)
 }
 static err_t s_baT5(int var)
 {
-	err_t code; size_t len = 32 + 72 + 8; bake_certval_i val = certval;
+	err_t code; size_t len = 32 + 72 + 8; bake_certval_i val = certval_x;     /* sees sct || cert_ct decrypted into a temporary blob */
 	bauth_upto(5, var != 3, var == 5);
 	sec_add(PRIV, 32, "privkey");
 	g_expect = ERR_OK;
 	if (var == 1) BUF2[512 + len - 2] ^= 0x01, g_expect = ERR_AUTH;       /* Tct changed */
-	if (var == 2) val = certval_bad, g_expect = ERR_BAD_CERT;
+	CV_REJECT = 0;
+	if (var == 2) CV_REJECT = 1, g_expect = ERR_BAD_CERT;
 	if (var == 3) g_expect = ERR_BAD_LOGIC;                                /* the token is not to be authenticated */
 	if (var == 4) len = 39, g_expect = ERR_BAD_INPUT;
 	if (var == 5) g_expect = ERR_AUTH;                                     /* signature made with another key */
@@ -1183,6 +1187,116 @@ static err_t s_bpkiPU2(int var)
 	return RUN("bpkiPrivkeyUnwrap", bpkiPrivkeyUnwrap(BUF1, &m, BUF2, EPKI_LEN, DATA + (var == 3 ? 301 : 300), 24));
 }
 
+/* ------------------------------------------------------------------ BSTS again: every callback that can fail.
+   The certificate validator of the side under test sees the DECRYPTED response of the peer (sa || cert inside a
+   temporary block): it registers both as secrets, and can reject.  Channel operations fail at the k-th call. */
+static err_t certval_x(octet* pubkey, const bign_params* params, const octet* data, size_t len)
+{
+	if (g_on && len >= 64)
+	{
+		sec_add(data - 32, 32, "decrypted-peer-response");               /* no = 32 octets of s in front of the certificate */
+		sec_add(data + len - 64, 64, "decrypted-peer-certificate");
+	}
+	if (CV_REJECT) { CV_REJECT = 0; return ERR_BAD_CERT; }      /* one-shot */
+	return certval(pubkey, params, data, len);
+}
+static int RK_FROM, RK_CNT;
+static void rng_k(void* buf, size_t count, void* state)
+{
+	if (++RK_CNT >= RK_FROM && RK_FROM) memset(buf, 0, count); else prngEchoStepR(buf, count, state);
+}
+static err_t bsts_call(int side, int tested)
+{
+	read_i rd = tested ? fread_t : fread_; write_i wr = tested ? fwrite_t : fwrite_;
+	if (tested) CH_RCNT = CH_WCNT = RK_CNT = 0;
+	return side ? bakeBSTSRunA(KEYA, BK_PA, SA, DA, CA, tested ? certval_x : certval, rd, wr, FA)
+		: bakeBSTSRunB(KEYB, BK_PB, SB, DB, CB, tested ? certval_x : certval, rd, wr, FB);
+}
+static err_t bsts_drive(int which, const char* fn)
+{
+	err_t codea = ERR_FILE_NOT_FOUND, codeb = ERR_FILE_NOT_FOUND; int round;
+	for (round = 0; round < 8 && (codea == ERR_FILE_NOT_FOUND || codeb == ERR_FILE_NOT_FOUND); ++round)
+	{
+		FA->i = FA->offset = FB->i = FB->offset = 0;
+		prngEchoStart(ECHOA, TAPE + 64, 64); prngEchoStart(ECHOB, TAPE + 128, 64);
+		if (which == 0)
+		{
+			track_begin(fn, g_inject); codeb = bsts_call(0, 1); track_end();
+			if (codeb != ERR_FILE_NOT_FOUND) return codeb;
+			codea = bsts_call(1, 0);
+		}
+		else
+		{
+			codeb = bsts_call(0, 0);
+			track_begin(fn, g_inject); codea = bsts_call(1, 1); track_end();
+			if (codea != ERR_FILE_NOT_FOUND) return codea;
+		}
+	}
+	return ERR_FILE_NOT_FOUND;
+}
+/* var 0 honest; 1 validator rejects the peer certificate; 2..4 k-th read fails; 5..7 k-th write fails (those beyond
+   the number of operations of the side end honestly: expectation adjusted below); 8 tampered message; 9 rng fails */
+static err_t s_bsts2(int which, int var)
+{
+	err_t code; const char* fn = which ? "bakeBSTSRunA" : "bakeBSTSRunB";
+	int nrd = which ? 2 : 2, nwr = which ? 1 : 2;      /* A: read M1, write M2, read M3;  B: write M1, read M2, write M3 (+ trailing) */
+	bake_setup(which);
+	sec_add(which ? DA : DB, 32, "privkey");
+	CV_REJECT = 0; RK_FROM = 0;
+	(which ? SA : SB)->rng = rng_k;
+	switch (var)
+	{
+	case 0: break;
+	case 1: CV_REJECT = 1; g_expect = ERR_BAD_CERT; break;
+	case 2: case 3: case 4: CH_RFAIL = var - 1; g_expect = ERR_FILE_READ; break;
+	case 5: case 6: case 7: CH_WFAIL = var - 4; g_expect = ERR_FILE_WRITE; break;
+	case 8: CH_XR = which ? 2 : 1; CH_XOFF = 70; g_expect = ERR_AUTH; break;
+	default: RK_FROM = 1; g_expect = ERR_BAD_RNG; break;
+	}
+	code = bsts_drive(which, fn);
+	(void)nrd; (void)nwr;
+	/* a failure index beyond the operations this side performs is never reached: the run is honest */
+	if ((var >= 2 && var <= 7) && code == ERR_OK && ((var <= 4 && CH_RCNT < CH_RFAIL) || (var >= 5 && CH_WCNT < CH_WFAIL))) g_expect = ERR_OK;
+	CV_REJECT = 0; RK_FROM = 0;
+	return code;
+}
+static err_t s_bstsB2(int var) { return s_bsts2(0, var); }
+static err_t s_bstsA2(int var) { return s_bsts2(1, var); }
+
+/* BSTS through the step API: the functions under test are Step4 (side B) and Step5 (side A) */
+static size_t BSTA[1024], BSTB[1024]; static octet BM1[64], BM2[256], BM3[256];
+static err_t s_bstsStep(int which, int var)
+{
+	err_t code; size_t m2 = 3 * 32 + 72 + 8, m3 = 32 + 72 + 8;
+	bake_setup(which);
+	if (bakeBSTS_keep(128) > sizeof BSTA) return ERR_OUTOFMEMORY;
+	sec_add(which ? DA : DB, 32, "privkey");
+	prngEchoStart(ECHOA, TAPE + 64, 64); prngEchoStart(ECHOB, TAPE + 128, 64);
+	CV_REJECT = 0;
+	if (bakeBSTSStart(BSTA, PARAMS, SA, DA, CA) || bakeBSTSStart(BSTB, PARAMS, SB, DB, CB)) return ERR_BAD_LOGIC;
+	if (bakeBSTSStep2(BM1, BSTB) || bakeBSTSStep3(BM2, BM1, BSTA)) return ERR_BAD_LOGIC;
+	out_reset();
+	if (which == 0)
+	{
+		out_add(BM3, m3);
+		if (var == 1) CV_REJECT = 1, g_expect = ERR_BAD_CERT;
+		if (var == 2) BM2[m2 - 3] ^= 0x10, g_expect = ERR_AUTH;          /* tag Ta */
+		if (var == 3) BM2[70] ^= 0x10, g_expect = ERR_AUTH;              /* encrypted part */
+		code = RUN("bakeBSTSStep4", bakeBSTSStep4(BM3, BM2, m2, certval_x, BSTB));
+		CV_REJECT = 0;
+		return code;
+	}
+	if (bakeBSTSStep4(BM3, BM2, m2, certval, BSTB)) return ERR_BAD_LOGIC;
+	if (var == 1) CV_REJECT = 1, g_expect = ERR_BAD_CERT;
+	if (var == 2) BM3[m3 - 3] ^= 0x10, g_expect = ERR_AUTH;
+	if (var == 3) BM3[40] ^= 0x10, g_expect = ERR_AUTH;
+	code = RUN("bakeBSTSStep5", bakeBSTSStep5(BM3, m3, certval_x, BSTA));
+	CV_REJECT = 0;
+	return code;
+}
+static err_t s_bstsS4(int var) { return s_bstsStep(0, var); }
+static err_t s_bstsS5(int var) { return s_bstsStep(1, var); }
+
 static const scen_t SCEN2[] = {
 	{"b96Gen", "bign96KeypairGen", 5, s_b96Gen}, {"b96KVal", "bign96KeypairVal", 5, s_b96KVal},
 	{"b96Calc", "bign96PubkeyCalc", 5, s_b96Calc}, {"b96PVal", "bign96PubkeyVal", 4, s_b96PVal},
@@ -1209,6 +1323,8 @@ static const scen_t SCEN2[] = {
 	{"bakeKDF", "bakeKDF", 2, s_bakeKDF}, {"bakeSWU", "bakeSWU", 3, s_bakeSWU},
 	{"bmqvB", "bakeBMQVRunB", 13, s_bmqvB}, {"bmqvA", "bakeBMQVRunA", 12, s_bmqvA},
 	{"bpaceB", "bakeBPACERunB", 12, s_bpaceB}, {"bpaceA", "bakeBPACERunA", 12, s_bpaceA},
+	{"bstsB2", "bakeBSTSRunB", 10, s_bstsB2}, {"bstsA2", "bakeBSTSRunA", 10, s_bstsA2},
+	{"bstsS4", "bakeBSTSStep4", 4, s_bstsS4}, {"bstsS5", "bakeBSTSStep5", 4, s_bstsS5},
 	{"belsStdM", "belsStdM", 3, s_belsStdM}, {"belsValM", "belsValM", 4, s_belsValM}, {"belsGenM0", "belsGenM0", 4, s_belsGenM0},
 	{"belsGenMi", "belsGenMi", 6, s_belsGenMi}, {"belsGenMid", "belsGenMid", 3, s_belsGenMid},
 	{"csrRe", "bpkiCSRRewrap", 5, s_csrRe}, {"csrUn", "bpkiCSRUnwrap", 5, s_csrUn},
